@@ -37,6 +37,11 @@ CLAIMED.update({
              text="Sound for the clause: over every repository function reachable from the ~1600 const entry points (kernels, iterators, property handles; property creation excluded as in the statement) there is no access to a mutable member, no non-const static-storage variable, no const-removing cast and no write to a mesh data member; iterators hold the mesh as pointer-to-const. With [res.on.data.races] for const container operations this implies absence of writes to shared state.",
              design="3/C20"),
 })
+CLAIMED.update({
+ "C11": dict(technique="static analysis: no-effect-before-rejection reachability on the CFG (rule N), guard-fact rules for acceptance, valence guards, topology-check index expressions and edge de-duplication",
+             text="Decides: no state effect (array growth, cache update, property resize, call of a state-changing kernel member) on any path to a rejecting/deduplicating return of add_edge/add_face/add_cell and the tet/hex overrides; the accepting path appends exactly one definition built from the argument and returns size()-1; tet/hex valence guards 3/4/3 and 4/6/4; add_face checks every consecutive pair and last-to-first; add_cell's sort/adjacent_find/unique pipeline; add_edge dedup in both branches and both orientations. Not decided: that the predicate characterises closed surfaces.",
+             design="3/C11, 2/N"),
+})
 NOT_YET = {}
 NA = {
  "C10": "soundness/completeness of the lookup queries against a brute-force search is an equality over runtime values of small search loops; no structural necessary condition exists that is not a brittle proxy (DESIGN 3/C10)",
